@@ -180,7 +180,7 @@ def execute(check, tier):
         done = 0
         last = time.time()
         it = pool.imap_unordered(_run_task, list(enumerate(tasks)), chunksize=getattr(check, "chunksize", 1))
-        stall = getattr(check, "stall_timeout", 1500)
+        stall = int(os.environ.get("VERIF_STALL", "0")) or getattr(check, "stall_timeout", 1500)
         while True:
             try:
                 idx, r, err = it.next(timeout=stall)
@@ -190,6 +190,9 @@ def execute(check, tier):
                 # no task finished for `stall` seconds: something inside the code under test does not return
                 print("HARNESS-ERROR property=%s no task completed within %d s (%d/%d done): the code under test hangs" % (
                     check.id, stall, done, len(tasks)))
+                pending = [i for i in range(len(tasks)) if results[i] is None][:16]
+                for i in pending:
+                    print("    unfinished task %d: %s" % (i, repr(tasks[i])[:400]))
                 pool.terminate()
                 return 2
             done += 1
